@@ -9,4 +9,7 @@ Gen(n, kind) == IF n = 0 THEN <<>>
 ASSUME ndJsonSerialize("c26_wire.ndjson", [i \in 1..Len(USeq) |-> [kind |-> "value", x |-> [v |-> USeq[i]]]] \o [i \in 1..Len(TSeq) |-> [kind |-> "type", x |-> [ty |-> TSeq[i]]]]
                                           \o Gen(N, "schema") \o Gen(N, "record") \o Gen(N \div 4, "watermark") \o Gen(N, "physctx") \o Gen(N, "execctx"))
 ASSUME PrintT(<<"VP:universe", Len(USeq), Len(TSeq)>>)
+VARIABLE x
+Init == x = 0
+Next == x' = x
 =============================================================================
